@@ -466,6 +466,14 @@ class SummaryExtractor(nodes.NodeVisitor):
                 # The footnote itself is not part of the summary: a reference to it would lead nowhere.
                 continue
 
+            elif isinstance(child, nodes.reference) and not child.get('refuri') and (
+                    child.get('refid') or child.get('refname')):
+                # A reference to a target inside the docstring: the target is not part of the summary
+                # (and not part of the page the summary is copied to), keep the text only.
+                text = child.astext().replace('\n', ' ')
+                summary_pieces.append(set_node_attributes(nodes.Text(text), document=summary_doc))
+                char_count += len(text)
+
             else:
                 summary_pieces.append(set_node_attributes(child.deepcopy(), document=summary_doc))
                 char_count += len(''.join(node2stan.gettext(child)))
